@@ -26,6 +26,12 @@ add("C04", "E1 mapspace", "model_checking", "bounded-exhaustive explicit-state e
     "all block-bookkeeping histories up to depth 4; every name, near miss, empty and unknown string looked up; consistency clause checked on every line of the universe.",
     MODEL_NOTE, "DESIGN.md §4 C04")
 
+add("C02", "E1 mapspace", "model_checking", "bounded-exhaustive exploration of mapping histories and token strings on the real code, differential oracle (mapper vs cache)",
+    "Every mapping of every E1 scope, every string of <=5 (thorough 6) tokens over a 16-token alphabet that lies in the representable domain, and every class block of the 7 corpus files: "
+    "the complete query universe (class, method, frames by line and by parameters, throwable, text and typed traces, signatures) is answered by the mapper, the mapper with index and the cache written and parsed back; "
+    "any difference is a violation. Exhaustive within the stated bounds.",
+    "Trusted: rustc/std. No model involved. The domain filter for token strings and corpus files uses the implementation's own record iterator (itself checked by C05/C06).", "DESIGN.md §4 C02")
+
 manifest = {
     "version": 1,
     "setup_cmd": "mkdir -p target && (cd pgmc && CARGO_NET_OFFLINE=true cargo build --release --offline) && (test ! -f shim/getrandom_shim.c || gcc -O2 -shared -fPIC -o shim/getrandom_shim.so shim/getrandom_shim.c)",
